@@ -31,7 +31,7 @@ func startParse(nodes []core_domain.CodeDataStruct, relates []support.RefactorCh
 			oldInfo := support.BuildMethodPackageInfo(related.OldObj)
 			newInfo := support.BuildMethodPackageInfo(related.NewObj)
 
-			if pkgNode.Package+pkgNode.NodeName == oldInfo.Package+oldInfo.Class {
+			if pkgNode.Package == oldInfo.Package && pkgNode.NodeName == oldInfo.Class {
 				for _, method := range pkgNode.Functions {
 					if method.Name == oldInfo.Method {
 						updateSelfRefs(pkgNode, method, newInfo)
@@ -41,7 +41,7 @@ func startParse(nodes []core_domain.CodeDataStruct, relates []support.RefactorCh
 
 			for _, method := range pkgNode.Functions {
 				for _, methodCall := range method.FunctionCalls {
-					if methodCall.Package+methodCall.NodeName == oldInfo.Package+oldInfo.Class {
+					if methodCall.Package == oldInfo.Package && methodCall.NodeName == oldInfo.Class {
 						if methodCall.FunctionName == oldInfo.Method {
 							updateSelfRefs(pkgNode, methodCallToMethodModel(methodCall), newInfo)
 						}
